@@ -86,6 +86,23 @@ pub fn judge(job: &JobSpec, cfg: &ConfigSpec, crash: (u32, u64), addr: AddrSeed,
         drop(w);
         std::thread::sleep(Duration::from_millis(20));
     }
+    // no sink of a host whose run failed holds a result, partial or complete
+    for (h, any) in run.ctx.post_panic.lock().unwrap().iter() {
+        if let Some(sinks) = any.downcast_ref::<Vec<SinkOut>>() {
+            for (i, s) in sinks.iter().enumerate() {
+                if !matches!(s, SinkOut::Nothing) {
+                    return Err(format!(
+                        "execute_blocking failed on host {h} after the injected panic, but sink {i} there published a result: {}",
+                        match s {
+                            SinkOut::Items(v) => format!("{} items", v.len()),
+                            SinkOut::Count(c) => format!("count {c}"),
+                            other => format!("{other:?}"),
+                        }
+                    ));
+                }
+            }
+        }
+    }
     // hosts that must fail: those running a panicked replica, and those running the sink
     let n_hosts = run.hosts.len();
     let mut must_fail = vec![false; n_hosts];
@@ -199,15 +216,20 @@ fn run(ctx: &Ctx, mode: &str) -> Report {
             _ => 1 + g.ch.below(job.pipe.source.len().max(1)) as u64,
         };
         let cfg = g.config(ctx.tier == Tier::Thorough, false);
+        // a quarter of the crash points fail slowly: the closure sleeps (longer than any adaptive
+        // batching delay) before it panics, so the rest of the job goes idle first
+        let slow = g.ch.flag(1, 4);
+        let k = if slow { k | ((([60u64, 150][g.ch.below(2)]) as u64) << 40) } else { k };
         let c = counter.get();
         counter.set(c + 1);
         match judge(&job, &cfg, (n, k), AddrSeed { shard: ctx.shard, job: c }, ctx.tier, shrinking) {
             Ok(Some(nt)) => {
                 rep.class("crash_reached");
                 rep.class_if(cfg.layout.is_remote(), "config:multi_host");
-                rep.class_if(k == 1, "crash_on_first_call");
+                rep.class_if(k & ((1u64 << 40) - 1) == 1, "crash_on_first_call");
+                rep.class_if(k >> 40 > 0, "slow_crash(sleep_before_panic)");
                 rep.class_if(n + 1 == closures && closures > 1, "crash_in_last_closure");
-                rep.sample(json!({"job": job, "config": cfg, "crash": {"closure": n, "call": k}}));
+                rep.sample(json!({"job": job, "config": cfg, "crash": {"closure": n, "call": k & ((1u64 << 40) - 1), "sleep_ms_before_panic": k >> 40}}));
                 Case::Pass { nontrivial: if nt { Some(fingerprint(&(&job, &cfg, n, k))) } else { None } }
             }
             Ok(None) => {
@@ -236,7 +258,7 @@ pub fn def() -> CheckDef {
     CheckDef {
         id: "C20",
         level: "fault_enumeration",
-        rule: "(sampled mode) random acyclic jobs (no loops, one final sink out of collect_vec / collect / collect_count / collect_vec_all, so every user closure is upstream of the sink) x a crash point = (index of a user closure in build order, call count k at which every replica's instance of that closure panics) x a deployment (local 1-8, 1-4 hosts, all batch modes); predicates: every host's execute_blocking returns or panics within the watchdog, every worker thread ends, execute_blocking panics on every host that runs a panicked replica or the sink, no host obtains a sink result; when the crash point is not reached the run must equal the reference; (enumerate mode) for small programs (<= 6 stages, <= 60 elements) every user closure position x call counts {1, 2, middle, last} is injected in turn under one deployment; non-trivial = the crash was reached and some replica never panicked; distinct = hash of (job, configuration, crash point)",
+        rule: "(sampled mode) random acyclic jobs (no loops, one final sink out of collect_vec / collect / collect_count / collect_vec_all, so every user closure is upstream of the sink) x a crash point = (index of a user closure in build order, call count k at which every replica's instance of that closure panics, a quarter of them after sleeping 60-150 ms so that the rest of the job goes idle first) x a deployment (local 1-8, 1-4 hosts, all batch modes); predicates: every host's execute_blocking returns or panics within the watchdog, every worker thread ends, execute_blocking panics on every host that runs a panicked replica or the sink, no host obtains a sink result - the output handles are read on the hosts whose execute_blocking failed too; when the crash point is not reached the run must equal the reference; (enumerate mode) for small programs (<= 6 stages, <= 60 elements) every user closure position x call counts {1, 2, middle, last} is injected in turn under one deployment; non-trivial = the crash was reached and some replica never panicked; distinct = hash of (job, configuration, crash point)",
         assumptions: &["the sampled mode draws crash points; the enumerate mode covers every closure position of small programs at four call counts, not every call count", "streaming sinks (collect_channel, for_each) publish incrementally by design and are excluded"],
         modes: |t| vec![("main", t.pick(8, 14)), ("enumerate", t.pick(4, 8))],
         run,
